@@ -331,6 +331,7 @@ def breakdown(js):
 
 MISSING_METHOD = re.compile(r"no method named `(\w+)` found for (?:struct|enum|reference|mutable reference|type) `&?(?:mut )?(?:[\w:]*::)?(\w+)")
 MISSING_FN = re.compile(r"cannot find function `(\w+)` in this scope")
+MISSING_VALUE = re.compile(r"cannot find value `([A-Z][A-Z0-9_]*)` in this scope")
 
 
 def find_missing_callees(diags, regions):
@@ -349,6 +350,19 @@ def find_missing_callees(diags, regions):
         m = MISSING_METHOD.search(msg)
         owner, fname = (m.group(2), m.group(1)) if m else (None, None)
         if not m:
+            m3 = MISSING_VALUE.search(msg)
+            if m3:
+                # a constant introduced by the change: extract its definition verbatim
+                for rel in files:
+                    try:
+                        extract.find_item(extract.load_source(rel), 'const', m3.group(1))
+                        ent = ('#const', m3.group(1), rel, '')
+                        if ent not in out:
+                            out.append(ent)
+                        break
+                    except extract.LostAnchor:
+                        continue
+                continue
             m2 = MISSING_FN.search(msg)
             if not m2:
                 continue
@@ -404,11 +418,13 @@ def run_unit(name, tier='quick', keep=False, rebaseline=False):
                 break
             for (owner, fname, relpath, src_owner) in missing:
                 auto.append((owner, fname, relpath, src_owner))
-                if owner:
+                if owner == '#const':
+                    extra_tail += f'\n//@item {relpath} const {fname} pub\n'
+                elif owner:
                     extra_tail += f'\nimpl {owner} {{\n//@fn {relpath} {src_owner}::{fname}\n//@end\n}}\n'
                 else:
                     extra_tail += f'\n//@fn {relpath} {fname}\n//@end\n'
-        res['auto_extracted'] = [f'{o + "::" if o else ""}{f} ({r})' for (o, f, r, _s) in auto]
+        res['auto_extracted'] = [f'{o + "::" if o and o != "#const" else ""}{f} ({r})' for (o, f, r, _s) in auto]
         res['props'] = unit['props']
         res['rewrites'] = log
         gen = os.path.join(work, name + '.rs')
